@@ -239,7 +239,7 @@ def split(string, separator=None, max_splits=-1):
         yaql> "abcde".split("c")
         ["ab", "de"]
     """
-    return string.split(separator, max_splits)
+    return tuple(string.split(separator, max_splits))
 
 
 @specs.parameter('string', yaqltypes.String())
@@ -271,7 +271,7 @@ def right_split(string, separator=None, max_splits=-1):
         yaql> "abc     de  f".rightSplit(maxSplits => 1)
         ["abc     de", "f"]
     """
-    return string.rsplit(separator, max_splits)
+    return tuple(string.rsplit(separator, max_splits))
 
 
 @specs.parameter('sequence', yaqltypes.Iterable())
